@@ -837,6 +837,81 @@ async def inference_cases(chk, rng, count):
         await a.finish()
 
 
+async def tls_cases(chk, rng, count):
+    """the same contract on a connection that was upgraded to TLS (in-memory `ssl.MemoryBIO` client, `loop.start_tls`
+    server): while the transport below the TLS layer refuses data, the number of rows pulled from the application's source
+    stays bounded by the buffers in between (the stream's own threshold plus the TLS layer's write backlog limit),
+    independently of the size of the result; after it accepts data again the complete result arrives, rows in order"""
+    from tls import TlsPeer
+    from mysql_mimic import ResultColumn, ColumnType
+    from lib import RecSession
+    LIMIT = 1536 * 1024          # stream threshold (32 KiB) + asyncio's TLS write backlog high-water mark (512 KiB), with slack
+    for i in range(count):
+        proto = rng.choice(["text", "binary"])
+        width = rng.choice([300, 1000, 4000])
+        nrows = (rng.choice([3, 5]) * 1024 * 1024) // width
+        kind = rng.choice(["gen", "agen"])
+        st = dict(pulled=0)
+
+        def rows_sync():
+            for k in range(nrows):
+                st["pulled"] += 1
+                yield ("%08d" % k + "x" * (width - 8),)
+
+        async def rows_async():
+            for k in range(nrows):
+                st["pulled"] += 1
+                yield ("%08d" % k + "x" * (width - 8),)
+        sess = RecSession(behaviour=lambda se, e, sql, at: ((rows_sync() if kind == "gen" else rows_async()), [ResultColumn("a", ColumnType.VARCHAR)]))
+        t = TlsPeer(sess)
+        desc = dict(tls=True, proto=proto, rows=nrows, row_bytes=width, source=kind, seed=chk.seed, case=i)
+        chk.count("tls:" + proto)
+        chk.case(("tls", proto, width, nrows, kind))
+        if not await t.login():
+            chk.fail("login over TLS failed", desc)
+            await t.a.finish()
+            continue
+        if proto == "binary":
+            t.send(pkt(0, b"\x16select a from t"))
+            await settle()
+            t.recv()
+        t.a.t.block()
+        t.send(pkt(0, b"\x03select a from t") if proto == "text" else pkt(0, com_stmt_execute(0, [], caps=int(BASE))))
+        last = -1
+        for _ in range(400):
+            await settle(30)
+            if st["pulled"] == last:
+                break
+            last = st["pulled"]
+        parked = st["pulled"]
+        if parked * width > LIMIT:
+            chk.fail("rows keep being pulled while the transport under the TLS layer refuses data (no back-pressure on a TLS connection)",
+                     desc, dict(rows_pulled_while_blocked=parked, bytes=parked * width, bound_bytes=LIMIT, result_rows=nrows))
+            await t.a.finish()
+            continue
+        # resume: the whole result arrives, in order
+        t.a.t.unblock()
+        plain = b""
+        for _ in range(4000):
+            await settle(30)
+            d = t.recv()
+            plain += d
+            if not d and st["pulled"] >= nrows:
+                await settle(60)
+                plain += t.recv()
+                break
+        pk = [p for _, p in split_packets(plain)]
+        try:
+            rs = decode_resultset(pk, int(BASE))
+            got = len(rs["rows"])
+            ok = got == nrows and all((("%08d" % k).encode() in rs["rows"][k][:16]) for k in (0, 1, nrows // 2, nrows - 1))
+            if not ok:
+                chk.fail("result over TLS incomplete or out of order after the transport resumed", desc, dict(rows_received=got))
+        except Exception as e:  # noqa
+            chk.fail("result over TLS is not a well-formed result set after the transport resumed", desc, repr(e)[:200])
+        await t.a.finish()
+
+
 def main():
     chk = Check("C12", sys.argv[1:])
     chk.rule = ("pulled−handed ≤ (B−1)/5 at every point for every result size and widths (lookahead_bounded), nothing pulled while parked "
@@ -855,6 +930,7 @@ def main():
         await inference_cases(chk, rng, 300 if big else 25)
         await multistatement_cases(chk, rng, 120 if big else 10)
         await hinted_cases(chk, rng, 120 if big else 10)
+        await tls_cases(chk, rng, 24 if big else 3)
     asyncio.run(go())
     chk.assumptions = [
         "the transport is asyncio's flow-control contract (pause_writing/resume_writing → StreamWriter.drain); the OS socket buffer below it is not modelled",
